@@ -109,3 +109,22 @@ Definition multi_kernel {K : carrier} (kf : nat -> K) (mask : option nat) (norma
            (window : list (list nat)) (target_ind : nat) : list K :=
   let r := upd (multi_fill kf mask offset 0 window) target_ind zero in
   if normalize then l1_normalize r else r.
+
+(* ---------- vocabulary of the pointwise specifications (no slicing, no clipping, no loop order) ---------- *)
+
+Definition bigsum {K : carrier} {A} (f : A -> K) (l : list A) : K := tsum (map f l).
+
+(* Σ_{q < L} f q *)
+Definition isum {K : carrier} (L : nat) (f : nat -> K) : K := bigsum f (seq 0 L).
+
+(* q lies in the one-sided window of radius R of p *)
+Definition in_win (reverse : bool) (R p q : nat) : bool :=
+  if reverse then (p <=? q + R) && (q <? p) else (p <? q) && (q <=? p + R).
+
+Definition dist (p q : nat) : nat := if p <=? q then q - p else p - q.
+
+Definition is_mask (mask : option nat) (t : nat) : bool :=
+  match mask with Some m => Nat.eqb t m | None => false end.
+
+(* the drivers only append strictly positive values *)
+Definition posv {K : carrier} (v : K) : K := if gtb0 v then v else zero.
